@@ -534,12 +534,23 @@ def run(case):
         else:
             df = G.build_df(d)
             keep = [i for i in range(case["n"]) if i not in set(h["drop_rows"])]
+            def direct_of(frame, dd):
+                res = {}
+                for c in dd["cols"]:
+                    try:
+                        fmt = None if c["fmt"] in (None, "datetime64") else c["fmt"]
+                        st = compute_col_stats(frame[c["name"]], getattr(torch_frame, c["stype"]), sep=c["sep"], time_format=fmt)
+                        res[c["name"]] = G.read_stats({c["name"]: st})[c["name"]]
+                    except Exception as ex:
+                        res[c["name"]] = {"exc": C.exc_name(ex)}
+                return res
             if h["kind"] == "retry":
                 vals = df[h["dirty"]].tolist()
                 for i in h["drop_rows"]:
                     vals[i] = "oops"
                 df[h["dirty"]] = pd.Series(vals, dtype=object, index=df.index)
                 ds = build_ds(d, df, ctor)
+                out["direct_initial"] = direct_of(ds.df, d)
                 try:
                     ds.materialize()
                     out["first_attempt"] = "no-raise"
@@ -550,6 +561,7 @@ def run(case):
                 ds.df[h["dirty"]] = ds.df[h["dirty"]].astype(float)
             else:
                 ds = build_ds(d, df, ctor)
+                out["direct_initial"] = direct_of(ds.df, d)
                 sub = ds[list(h["cols"])]
                 sub.materialize()
                 out["first_attempt"] = "colselect-materialized"
@@ -1173,9 +1185,57 @@ def coq_col(case, obs, col, extra):
     return c, f"OEmb {C.cz(st['EMB_DIM'])}"
 
 
+def same_stats(observed, direct):
+    """the statistics `direct` (a compute_col_stats result) are contained in `observed` (count tables as sets of pairs:
+    the binary-target re-sort may reorder them)"""
+    if not isinstance(direct, dict) or "exc" in direct:
+        return False
+    for k, v in direct.items():
+        if k not in observed:
+            return False
+        if k in ("COUNT", "MULTI_COUNT"):
+            if sorted(zip(map(repr, v[0]), v[1])) != sorted(zip(map(repr, observed[k][0]), observed[k][1])):
+                return False
+        elif observed[k] != v:
+            return False
+    return True
+
+
+def coq_history(case, obs):
+    """Model/Stats.v run_history on the case's history: frame versions 0 (before the user's edit) and 1 (the frame finally
+    materialized); every column's observed statistics are identified with the version they are the statistics of."""
+    h = case.get("history")
+    order = list(case["col_order"])
+    raises, flags = [], [True]
+    if not h:
+        ops = [(order, 1)]
+    elif h["kind"] == "retry":
+        ops = [(order, 0), (order, 1)]
+        raises = [(c, 0) for c in order if "exc" in obs["direct_initial"].get(c, {})]
+        flags = [obs.get("first_attempt") == "no-raise", True]
+    else:
+        sub = list(h["cols"]) + ([case["target"]] if case["target"] and case["target"] not in h["cols"] else [])
+        ops = [(sub, 0), (order, 1)]
+        raises = [(c, 0) for c in sub if "exc" in obs["direct_initial"].get(c, {})]
+        flags = [True, True]
+    vers = []
+    for c in order:
+        if same_stats(obs["stats"][c], obs["direct"].get(c)):
+            vers.append(1)
+        elif h and same_stats(obs["stats"][c], obs["direct_initial"].get(c)):
+            vers.append(0)
+        else:
+            vers.append(-1)
+    cs = lambda l: C.clist(l, C.cstr)   # noqa: E731
+    return (f"history_ok {C.clist(raises, lambda p: f'({C.cstr(p[0])}, {C.cnat(p[1])})')} "
+            f"{C.clist(ops, lambda o: f'({cs(o[0])}, {C.cnat(o[1])})')} {C.clist(flags, C.cbool)} {cs(order)} "
+            f"{C.clist(vers, C.cz)}")
+
+
 def coq_term(case, obs):
     if not obs.get("ok"):
         return None
+    hist_term = coq_history(case, obs)
     case = final_desc(case)
     terms = []
     for col in case["cols"]:
@@ -1197,4 +1257,4 @@ def coq_term(case, obs):
                 return "false"
             terms.append(f"update_col_stats_ok {C.clist(obs.get('emb_offset', []), C.cnat)} "
                          f"{C.clist(widths, C.cnat)} {C.clist(dims, C.cz)}")
-    return "(" + " && ".join(terms or ["true"]) + ")"
+    return "(" + " && ".join(terms + [hist_term]) + ")"
